@@ -8,9 +8,10 @@ CONSTANTS
   PHeights = {}
   PAns = {}
   PPub = {}
-INVARIANTS SweepMaxIsConfigured SweepBudgetIsInputs SweepDeadlineIsInputs TxSpendsAll TxNoDust TxWithinBudget TxRateLeCfgMax TxPaysOfferedRate
+INVARIANTS SweepMaxIsConfigured SweepBudgetIsInputs SweepDeadlineIsInputs SweepExtraIsRequired TxSpendsAll TxNoDust TxWithinBudget TxRateLeCfgMax TxPaysOfferedRate
   ConformFF ConformCreate ConformTx ConformDone
   FFMonotone FFBelowEnd FFAboveFloor FFCeilAtWidth FFCeilByDeadline FFShape
   PubFeeLeBudget PubRateLeMax PubRateLeCeil PubNoDust PubSomeOutput PubMonotone PubAboveFloor PubFeeExact PubCeilByDeadline RegroupStart RegroupNoDecrease PubRegroupNoDecrease
   PubRateLeCfgMax PubFeeLeInputBudget PubTxRateLeCfgMax
+  NextEndIsCeilingOfBuiltTx NextStartCappedAtEnd
 CHECK_DEADLOCK TRUE
